@@ -181,6 +181,12 @@ func (t *Input) reflectSetKey(rv reflect.Value, key string, v interface{}) (err 
 func (t *Input) reflectSet(rv reflect.Value, v interface{}) (err error) {
 	if rv.CanSet() {
 		vv := reflect.ValueOf(v)
+		if !vv.IsValid() {
+			// A null, a member of a list for instance, is the zero value of
+			// the Go field or element.
+			rv.Set(reflect.Zero(rv.Type()))
+			return
+		}
 		vt := vv.Type()
 		if vt.AssignableTo(rv.Type()) {
 			rv.Set(vv)
